@@ -26,11 +26,22 @@ impl Builder {
         let format = self.format.or_else(|| Format::detect(&raw));
 
         let reader = &mut &raw[..];
-        match format {
+        let scs = match format {
             Some(Format::Text) => text::read_scs(reader),
             Some(Format::Npy) => Array::read_npy(reader).map(Scs::from),
             None => Err(io::Error::new(io::ErrorKind::InvalidData, "invalid format")),
+        }?;
+
+        // A spectrum over n chromosomes has n + 1 entries along that axis, so every axis holds at
+        // least one entry; an empty axis is not a spectrum and would break downstream arithmetic
+        if scs.shape().iter().any(|&n| n == 0) {
+            return Err(io::Error::new(
+                io::ErrorKind::InvalidData,
+                "invalid spectrum shape: axis of length zero",
+            ));
         }
+
+        Ok(scs)
     }
 
     /// Set input source.
